@@ -173,7 +173,8 @@ async def watcher(
                                    exception_handler=exception_handler)
     streams: dict[ObjectRef, Stream] = {}
     if veriftrace.enabled:
-        veriftrace.emit('q.start', res=resource.plural, ns=namespace, sched=id(scheduler))
+        veriftrace.emit('q.start', res=resource.plural, ns=namespace, sched=id(scheduler),
+                        group=resource.group, ver=resource.version)
 
     try:
         # Either use the existing object's queue, or create a new one together with the per-object job.
